@@ -848,15 +848,33 @@ fn run(ctx: &mut Ctx) {
     ctx.add_sample("hygiene", json!({"identifiers_of_the_macro_crate": hyg.len(), "some": hyg.iter().step_by(9).take(16).collect::<Vec<_>>()}));
     for n in &hyg {
         let u = |src: String, v: u64, paren: bool| M::Unquote(src, MV::U(v), paren);
-        battery.push(M::List(
-            vec![
-                id("h"),
-                u(n.clone(), 7, false),
-                M::List(vec![u(format!("{} + 1", n), 8, true)], Some(Box::new(u(n.clone(), 7, false)))),
-                M::Vector(vec![u(n.clone(), 7, false), u(format!("{} * 2", n), 14, true)]),
-            ],
-            Some(Box::new(u(format!("{} - 1", n), 6, true))),
-        ));
+        // written directly and through the macro_rules! wrapper (which has a
+        // hygiene of its own and would hide a capture): the head symbol is
+        // varied until the emission rule picks each route once
+        let (mut direct, mut wrapped) = (false, false);
+        for k in 0..24 {
+            let t = M::List(
+                vec![
+                    id(&format!("h{}", k)),
+                    u(n.clone(), 7, false),
+                    M::List(vec![u(format!("{} + 1", n), 8, true)], Some(Box::new(u(n.clone(), 7, false)))),
+                    M::Vector(vec![u(n.clone(), 7, false), u(format!("{} * 2", n), 14, true)]),
+                ],
+                Some(Box::new(u(format!("{} - 1", n), 6, true))),
+            );
+            let via = via_macro_rules(&t);
+            if (via && !wrapped) || (!via && !direct) {
+                if via {
+                    wrapped = true;
+                } else {
+                    direct = true;
+                }
+                battery.push(t);
+            }
+            if direct && wrapped {
+                break;
+            }
+        }
     }
     let mut excluded = 0u64;
     let mut all_failures = 0usize;
